@@ -42,7 +42,8 @@ class ScriptedServer:
             kw["read_pause_until"] = self.sim.net.now + beh["pause"]
         cert = self.cert_queue.pop(0) if self.cert_queue else self.cert
         peer = RawPeer(self.sim.net, ep, beh.get("script", [("wait_line",), ("stall",)]),
-                       tls_ctx=fx.server_ctx(cert, self.tls12) if self.tls else None, server_side=True,
+                       tls_ctx=fx.server_ctx(cert, self.tls12) if (self.tls and not beh.get("no_tls")) else None,
+                       server_side=True,
                        polite_close=beh.get("polite_close", True),
                        name=f"{self.host}:{self.port}#{idx}", keep_cipher=True, **kw)
         peer.cert_presented = cert
